@@ -152,3 +152,30 @@ Proof.
   split; [vm_compute; reflexivity|]. split; [vm_compute; repeat constructor|].
   split; vm_compute; reflexivity.
 Qed.
+
+(* Whole histories (Tracer/History*.v, HistoryBounds.v): for every well-formed data stream type, every
+   platform behaviour and every history that starts by opening the first packet, if no error is
+   flagged and the content offset of every open packet is inside its buffer at call boundaries
+   (offb / offb_run: every buffer holds the packet header and context - the precondition in the
+   statement of C02), then the write position is inside the packet at every call boundary.
+   Possible only after the repairs of S9 / S18 in /repo. *)
+From BT.Tracer Require Import History HistoryRecord HistoryStep HistoryBounds HistoryMain.
+Theorem C02_history_in_bounds :
+  forall d user cs_size, wf_d d user cs_size ->
+  forall buf oracle h,
+    fits cs_size (8 * buf) -> or_ok cs_size oracle -> Forall (call_ok d) h ->
+    let w0 := mk_w (init_ctx buf) oracle 0%Z [] false user in
+    let w1 := step d w0 COpen in
+    c_open (w_c w1) = true -> offb w1 -> offb_run d w1 h ->
+    w_err (run d buf user oracle (COpen :: h)) = false ->
+    inb_run d w1 h.
+Proof. exact history_in_bounds. Qed.
+Print Assumptions C02_history_in_bounds.
+
+Theorem C02_tracing_call_stays_in_bounds :
+  forall d user cs_size, wf_d d user cs_size ->
+  forall R0 w e args cv sv pv,
+    J d user cs_size R0 w -> In e (d_erts d) -> args_ok d e args cv sv pv -> inb w ->
+    w_err (trace_fn d e args w) = false -> offb (trace_fn d e args w) -> inb (trace_fn d e args w).
+Proof. exact trace_inb. Qed.
+Print Assumptions C02_tracing_call_stays_in_bounds.
